@@ -566,7 +566,7 @@ pub fn c15_meta(tier: Tier) -> Meta {
     let (dense, nmax, cases) = c15_params(tier);
     basic(
         format!(
-            "process_immutable_with_scratch on every n in 1..={dense} x 4 planners x f32/f64 x 2 directions with chunk counts cycling over 1..8, and {cases} proptest-drawn structured lengths up to {nmax}; well-shaped calls and the ill-shaped immutable shapes of the C09 matrix (wrong data/output/scratch lengths, ending in a panic that is caught). Oracle: the input slice is compared bit-for-bit before/after, also when the call panics; half of the cases additionally place the input in a PROT_READ mapping, so a write-then-restore is a fault in the worker. Scratch initial contents vary (zero/NaN/Inf/huge). Every n of the dense range is also checked on a transform obtained from a planner WITH history (opposite direction of the same length and a multiple planned first on the same Scalar/Sse/Avx planner): one read-only well-shaped call and three ill-shaped calls. Also run on the build with debug assertions. \
+            "process_immutable_with_scratch on every n in 1..={dense} x 4 planners x f32/f64 x 2 directions with chunk counts cycling over 1..8, and {cases} proptest-drawn structured lengths up to {nmax}; well-shaped calls and the ill-shaped immutable shapes of the C09 matrix (wrong data/output/scratch lengths, ending in a panic that is caught). Oracle: the input slice is compared bit-for-bit before/after, also when the call panics; half of the cases additionally place the input in a PROT_READ mapping, so a write-then-restore is a fault in the worker. Scratch initial contents vary (zero/NaN/Inf/huge). Every n of the dense range is also checked on a transform obtained from a planner WITH history (opposite direction of the same length and a multiple planned first on the same Scalar/Sse/Avx planner): one read-only well-shaped call and three ill-shaped calls. Also run on the build with debug assertions, and (every n <= 160/512, fresh and history-obtained transforms, well- and ill-shaped) on an UNOPTIMISED build: a write through the shared input reference is undefined behaviour, which an optimising build may delete while `cargo test`-style builds execute it. \
              Non-trivial: n >= 2; distinct = (planner,type,direction,n,shape,readonly,input)."
         ),
         "dense range enumerated completely; structured part sampled",
@@ -576,6 +576,43 @@ pub fn c15_meta(tier: Tier) -> Meta {
 pub fn c15_worker(ctx: &mut Ctx) {
     let (dense, nmax, cases) = c15_params(ctx.tier);
     let is_chk = crate::runner::current_variant() == "chk";
+    if crate::runner::current_variant() == "dbg" {
+        // unoptimised build: every n up to 160 (quick) / 512 (thorough), fresh planner and planner with history, well-shaped
+        // (input compared bitwise, and once in a read-only mapping) and ill-shaped calls
+        for n in 1..=ctx.tier.pick(160usize, 512) {
+            for ty in TYS {
+                for dir in DIRS {
+                    for planner in [Planner::Scalar, Planner::Sse, Planner::Avx] {
+                        if !ctx.mine() {
+                            continue;
+                        }
+                        let nn = n as i64;
+                        let k = 1 + (n % 3) as i64;
+                        let hist = Source::History { reqs: vec![Req { n, dir: dir.other() }, Req { n, dir }], pick: 1 };
+                        for (si, src) in [Source::Plan, hist].iter().enumerate() {
+                            if si == 1 && n < 2 {
+                                continue;
+                            }
+                            for (d, o, s, ro) in [(nn * k, nn * k, 2i64, 0i64), (nn, nn, 2, 1), (nn + 1, nn + 1, 2, 0), (2 * nn, 2 * nn, 1, 0), (nn, nn + nn, 2, 0)] {
+                                ctx.exec(
+                                    &Case::new("C15", "immut", planner, ty, dir, n)
+                                        .with_entry(Entry::Immutable)
+                                        .with_chunks(if d == nn * k { k as usize } else { 1 })
+                                        .with_source(src.clone())
+                                        .with_input(InputSpec::fam("uniform", (n * 5) as u64 + d as u64))
+                                        .with_p(vec![d, o, s, ro, (n % 5) as i64]),
+                                );
+                            }
+                        }
+                    }
+                }
+            }
+            if ctx.done() {
+                return;
+            }
+        }
+        return;
+    }
     let step = if is_chk { 2 } else { 1 };
     let mut n = 1;
     while n <= dense {
